@@ -18,7 +18,7 @@ except Exception:
 checks = []
 for pid in sorted(cfg["checks"]):
     c = cfg["checks"][pid]
-    if c.get("disabled"):
+    if c.get("disabled") or pid not in cfg.get("enabled", []):
         continue
     m = c.get("manifest", {})
     checks.append({
